@@ -1318,8 +1318,8 @@ struct Engine {
     }
     void pushFrame(Function *fn, std::vector<Val> &args, const CallBase *site)
     {
-        if (stack.size() > 2000)
-            throw PathEnd{"inconclusive", "stack depth"};
+        if (stack.size() > 2000) // unbounded recursion: natively a stack overflow (the replay confirms it with SIGSEGV)
+            throw PathEnd{"violation", "recursion deeper than 2000 frames (stack overflow)"};
         Frame f;
         f.f = fn;
         f.site = site;
@@ -1779,8 +1779,8 @@ struct Engine {
         Instruction *I = &*F.pc;
         ++F.pc;
         st.instrs++;
-        if (++pathInstr > instrBudget)
-            throw PathEnd{"inconclusive", "instruction budget"};
+        if (++pathInstr > instrBudget) // possible non-termination: reported only if the native replay does not terminate either
+            throw PathEnd{"violation", "non-termination suspected: more than " + std::to_string(instrBudget) + " instructions on one path"};
         if (trace) {
             errs() << F.f->getName() << ": ";
             I->print(errs());
@@ -2636,11 +2636,6 @@ static std::string runPath(Engine &E, const RunCfg &rc, const std::vector<Engine
         }
     } catch (PathEnd &p) {
         end = p;
-        if (end.kind == "inconclusive" && end.msg.compare(0, 11, "stack depth") == 0 && !E.knownCtx.empty()) {
-            // unbounded recursion inside a region the harness marked as a known finding (natively: stack overflow)
-            E.knownHit.push_back(E.knownCtx);
-            end = PathEnd{"ok", "known finding: unbounded recursion"};
-        }
         if (end.kind == "inconclusive" && getenv("SYMX_WHERE")) {
             end.msg += " @";
             for (size_t i = E.stack.size(); i-- > 0 && i + 6 > E.stack.size();)
